@@ -252,7 +252,7 @@ def run(ctx):
                     dmat = u.gen_matrix(rng, n, 0.0)        # diagonal: empty adjacency structure in get_perm_c
                     jobs.append((prec, P, "diag", case_text("diag", P, dmat, n, "gssv,trsv0", repeat=50, fact=fact, permc=rng.randint(1, 2)), n, dmat))
                 if not quick or P in (1, 4):
-                    jobs.append((prec, P, "nr", case_text("nr", P, mat, n, "gssv,gssvx", repeat=50, fact=fact, permc=permc, nr=1), n, mat))
+                    jobs.append((prec, P, "nr", case_text("nr", P, mat, n, "gssv,gssvx,gssvxf,gssvxu", repeat=50, fact=fact, permc=permc, nr=1), n, mat))
                     jobs.append((prec, P, "mixed", case_text("mixed", P, mat, n, "gssvxq,gssv,gssvxs,gssvx", repeat=20, fact=fact, permc=permc), n, mat))
 
     def one(job):
